@@ -645,22 +645,22 @@ type LoopSpec struct {
 }
 
 type PredDef struct {
-	Name    string
-	Params  []Binder
-	Ret     *TypeExpr // nil => bool
-	Body    *SExpr
-	Pkg     string // package path where declared ("" = global)
-	File    string
-	Line    int
-	Src     string
+	Name   string
+	Params []Binder
+	Ret    *TypeExpr // nil => bool
+	Body   *SExpr
+	Pkg    string // package path where declared ("" = global)
+	File   string
+	Line   int
+	Src    string
 }
 
 type UFunc struct {
-	Name  string
-	Args  []string // SMT sorts
-	Ret   string
-	File  string
-	Line  int
+	Name string
+	Args []string // SMT sorts
+	Ret  string
+	File string
+	Line int
 }
 
 type LemmaDef struct {
@@ -711,10 +711,10 @@ type FuncContract struct {
 	Loops    map[int]*LoopSpec
 	Trusted  bool // assumed, not verified (externals, interface methods)
 	Inline   bool
-	Mode     string // "", "real", "fp"
+	Mode     string   // "", "real", "fp"
 	Params   []string // optional explicit parameter names (externals)
 	MayPanic bool
-	Pure     bool   // no heap effect, no allocation
+	Pure     bool // no heap effect, no allocation
 	NoAlloc  bool
 	FDef     bool // float divisions generate definedness obligations
 	Ghost    []*GhostStmt
@@ -732,11 +732,11 @@ type AssertAt struct {
 }
 
 type SpecFile struct {
-	Preds  []*PredDef
-	UFuncs []*UFunc
-	Axioms []*AxiomDef
-	Ghosts []*GhostDef
-	Funcs  []*FuncContract
+	Preds   []*PredDef
+	UFuncs  []*UFunc
+	Axioms  []*AxiomDef
+	Ghosts  []*GhostDef
+	Funcs   []*FuncContract
 	Lemmas  []*LemmaDef
 	SmtDefs []*SmtDef
 }
